@@ -145,6 +145,11 @@ def to_tfrecord(saved_data_description: list[Attribute],
 
         # Set feature value
         if attribute.dtype in ["int8", "uint8", "int32", "int64"]:
+            # Saved as int64. Anything but integers (e.g. floats or strings)
+            # could be written but the record could never be parsed back.
+            if value.dtype.kind not in "iub":
+                raise ValueError(f"Cannot save {value.dtype} as an integer "
+                                 f"for attribute {attribute.name}.")
             feature[attribute.name] = int64_feature(values[attribute.name])
         elif attribute.dtype == "float16":
             value = value.astype(dtype=np.float16)
